@@ -202,6 +202,36 @@ def gen_coop(rng):
     toks += [str(len(ops))] + ops
     return " ".join(toks)
 
+# ---------------------------------------------------------------- converting constructors, arbitrary sources
+def gen_conversions(rng, full):
+    """every converting constructor (MDP::Model(M), MDP::SparseModel(M), POMDP::Model<..>(PM),
+    POMDP::SparseModel<..>(PM)) from (g) a user-defined generic model and from a library model of the other
+    representation (d dense / s sparse) built through NO_CHECK, with every discount of the lists: the source's tables are valid, so the discount alone
+    decides; plus a few sources with an invalid table and a valid discount."""
+    out = []
+    discs = [(d, True) for d in DISCOUNTS_BAD] + [("1/2", False), ("1", False), (fx(1e-300), False)]
+    for cls in ["md", "ms", "pd", "ps"]:
+        pomdp = cls in ("pd", "ps")
+        # a library source of the SAME representation would select the implicit copy constructor (a plain
+        # copy, not a conversion), so library sources are always of the other representation
+        for src in ["g", "s" if cls in ("md", "pd") else "d"]:
+            chosen = discs if full else rng.sample(discs[:len(DISCOUNTS_BAD)], 3) + [rng.choice(discs[len(DISCOUNTS_BAD):])]
+            for d, _ in chosen:
+                S = rng.choice([1, 2, 2, 3]); A = rng.choice([1, 2]); O = rng.choice([1, 2, 3])
+                badT = rng.choice(ROW_KINDS_BAD) if maybe(rng, 0.1) else None
+                if badT == "neg_small": badT = "neg"
+                # a valid object first (so that "unchanged on throw" is observable), then the conversion, then a setter
+                first = "ctor3 %d %d 3/4" % (S, A)
+                if pomdp: first = "pctor %d %s" % (O, first)
+                if src == "g":
+                    body = "%d %d %s %s %s" % (S, A, d, table(rng, S, A, S, badT), rewards(rng, S * A * S, cls in ("ms", "ps")))
+                    op = ("pctorc %d %s %s" % (O, table(rng, S, A, O, None), body)) if pomdp else ("ctorc " + body)
+                else:
+                    body = "%d %d %s %s %s" % (S, A, d, table(rng, A, S, S, badT), rewards(rng, S * A, cls in ("ms", "ps")))
+                    op = ("pctorlib %s %d %s %s" % (src, O, table(rng, A, S, O, None), body)) if pomdp else ("ctorlib %s %s" % (src, body))
+                out.append("%s 3 %s %s setd 1/2" % (cls, first, op))
+    return out
+
 def gen(rng, tier):
     n = {"quick": 420, "thorough": 4000, "search": 1500}[tier]
     out = []
@@ -223,6 +253,8 @@ def gen(rng, tier):
             rng.choice(["d", "d", "s"]), rng.randrange(1, 10 ** 6), rng.choice([1, 2, 5, 20, 60]), rng.choice([1, 2, 3, 4]),
             O, dyt(S, A, O), S, A, rng.choice(["1/2", "3/4", "1"]), dyt(S, A, S),
             "%d %s" % (S * A * S, " ".join(str(rng.randint(-4, 8)) for _ in range(S * A * S)))))
+    # -- converting constructors from arbitrary sources (generic wrapper / NO_CHECK library models)
+    out += gen_conversions(rng, tier != "quick")
     # -- factored models: DDNGraph::push sequences, then CooperativeModel constructor / setDiscount
     for _ in range(max(30, n // 8)):
         out.append(gen_coop(rng))
